@@ -665,9 +665,12 @@ def check_mutation(case):
     if lay != "C":
         args_l = [_relayout(a, lay) for a in build(case)]
         if any(isinstance(a, np.ndarray) and not a.flags["C_CONTIGUOUS"] for a in args_l):
+            h_l = _hash_args(args_l)
             np.random.seed(case["seed"])
             with contextlib.redirect_stdout(io.StringIO()):
                 ok5, r5 = out.call(f"{name}:call on {lay}-layout arguments", fn, *args_l)
+            out.true(f"{name}:caller's arrays bit-identical after the call ({lay}-layout arguments)",
+                     _hash_args(args_l) == h_l, "a non-C-contiguous array argument was modified in place")
             if ok5 and ok:
                 dev = _deviation(r2, r5)      # r2: fresh C-contiguous call (r1 may alias buffers overwritten above)
                 out.le(f"{name}:result independent of the arguments' memory layout", dev, 1e-6,
@@ -687,7 +690,7 @@ OPS_SQUARE = ["det_dieudonne", "power_iteration", "power_iteration_nonhermitian"
 OPS_HERM = ["det_moore", "eig", "tridiag"]
 OPS_SYS = ["qgmres_left_lu", "qgmres_none"]
 OPS_TALL = ["hybrid_qr"]
-LAZY_IMPORT_OPS = {"rank", "det_dieudonne", "det_moore", "null_right", "null_left", "spectral_norm", "power_iteration",
+LAZY_IMPORT_OPS = {"ns_sparse", "ns_sparse_fast", "qgmres_sparse", "qgmres_sparse_left_lu", "rank", "det_dieudonne", "det_moore", "null_right", "null_left", "spectral_norm", "power_iteration",
                    "power_iteration_nonhermitian", "qgmres_left_lu", "rsp_qr", "hybrid_qr", "random_unitary"}
 
 
@@ -700,7 +703,7 @@ def import_cases(draw, tier):
     jobs = []
     nops = draw(st.integers(4, 8))
     for _ in range(nops):
-        grp = draw(st.sampled_from(["any", "any", "square", "herm", "sys", "tall", "gen"]))
+        grp = draw(st.sampled_from(["any", "any", "square", "herm", "sys", "tall", "gen", "sparse", "sparse"]))
         seed = draw(st.integers(0, 2 ** 31 - 1))
         if grp == "any":
             m, n = draw(st.integers(1, 4)), draw(st.integers(1, 4))
@@ -708,6 +711,26 @@ def import_cases(draw, tier):
             if not A.any():
                 A[0, 0, 1] = 1.0
             jobs.append({"op": draw(st.sampled_from(OPS_ANY)), "args": {"A": A}, "seed": seed})
+        elif grp == "sparse":
+            op = draw(st.sampled_from(["ns_sparse", "ns_sparse_fast", "qgmres_sparse", "qgmres_sparse_left_lu", "matmat_sparse_dense",
+                                       "matmat_dense_sparse", "frobenius_sparse", "hermitian_sparse", "create_sparse"]))
+            if op.startswith("qgmres"):
+                n = draw(st.integers(1, 4))
+                A = draw(gen.qarray(n, n, "sparse"))[0] / 4.0 + 3.0 * ref.qeye(n)
+                b = draw(gen.qarray(n, 1, "generic"))[0]
+                b[0, 0, 0] += 1.0
+                jobs.append({"op": op, "args": {"A": A, "b": b}, "seed": seed})
+            elif op.startswith("matmat"):
+                m, k, n = draw(st.integers(1, 3)), draw(st.integers(1, 3)), draw(st.integers(1, 3))
+                jobs.append({"op": op, "args": {"A": draw(gen.qarray(m, k, "sparse"))[0], "B": draw(gen.qarray(k, n, "sparse"))[0]},
+                             "seed": seed})
+            elif op == "create_sparse":
+                jobs.append({"op": op, "args": {"m": draw(st.integers(1, 4)), "n": draw(st.integers(1, 4))}, "seed": seed})
+            else:
+                m, n = draw(st.integers(1, 4)), draw(st.integers(1, 4))
+                A = draw(gen.qarray(m, n, "sparse"))[0]
+                A[0, 0, 1] += 1.0
+                jobs.append({"op": op, "args": {"A": A}, "seed": seed})
         elif grp == "square":
             n = draw(st.integers(2, 4))
             A = draw(gen.qarray(n, n, "generic"))[0] / 4.0 + 2.0 * ref.qeye(n)
